@@ -70,35 +70,25 @@ def h_ct(defs, main, ns, mode, overlap=False):
         sigs = {v: ct.signal(env, v, n, 'zero') for v, n in zip(vs, ns)}
         mkargs = lambda vv: [[v, [list(p) for p in sigs[v]]] for v in vv]
         res = []
-        if overlap and mode == 'online':
-            # two batches, the second starting with a copy of the sample the first one ended with
-            b1 = [[v, [list(p) for p in sigs[v][:-1]]] for v in vs]
-            b2 = [[v, [list(p) for p in sigs[v][-2:]]] for v in vs]
-            sm.update(*b1)
-            sm.update(*b2)
-            for v in vs:
-                sg = [list(p) for p in sigs[v][-2:]]        # an independent copy of what was supplied (get_value may alias the batch)
-                got = sm.get_value(v)
-                res.append(('var-%s-len' % v, A.bool(len(got) == len(sg))))
-                if len(got) == len(sg):
-                    for i in range(len(sg)):
-                        res.append(('var-%s@%d' % (v, i), A.And(A.eq(got[i][0], sg[i][0]), A.eq(got[i][1], sg[i][1]))))
-            return res
-        if mode == 'offline':
-            sm.evaluate(*mkargs(vs))
-        else:
-            sm.update(*mkargs(vs))
+        def feed(spec, vv):
+            """one evaluate()/update(), or two update() calls whose second batch repeats the sample the first ended with; fresh copies each time"""
+            if overlap and mode == 'online':
+                spec.update(*[[v, [list(p) for p in sigs[v][:-1]]] for v in vv])
+                return spec.update(*[[v, [list(p) for p in sigs[v][-2:]]] for v in vv])
+            return spec.evaluate(*mkargs(vv)) if mode == 'offline' else spec.update(*mkargs(vv))
+        feed(sm, vs)
         for v in vs:
+            sg = [list(p) for p in (sigs[v][-2:] if overlap and mode == 'online' else sigs[v])]   # independent copy of what was supplied last
             got = sm.get_value(v)
-            res.append(('var-%s-len' % v, A.bool(len(got) == len(sigs[v]))))
-            if len(got) == len(sigs[v]):
+            res.append(('var-%s-len' % v, A.bool(len(got) == len(sg))))
+            if len(got) == len(sg):
                 for i in range(len(got)):
-                    res.append(('var-%s@%d' % (v, i), A.And(A.eq(got[i][0], sigs[v][i][0]), A.eq(got[i][1], sigs[v][i][1]))))
+                    res.append(('var-%s@%d' % (v, i), A.And(A.eq(got[i][0], sg[i][0]), A.eq(got[i][1], sg[i][1]))))
         tau = env.real('tau')
         for n, f in names:
             fv = sorted(variables(f))
             ref = ct.make_spec(mode, 'out = ' + text(f), fv)
-            want = ref.evaluate(*mkargs(fv)) if mode == 'offline' else ref.update(*mkargs(fv))
+            want = feed(ref, fv)
             got = sm.get_value(n)
             got, want = [list(p) for p in got], [list(p) for p in want]
             env.observe(n, got)
@@ -177,7 +167,12 @@ def obligations(tier, rng):
             for mode in ('offline', 'online'):
                 out.append(ob('C12', 'ct', 'ct/%s/p=%s/out=%s' % (mode, text(d), text(m)), defs=[['p', d]], main=m,
                               ns=[2, 2] if two else [3 if quick else 4], mode=mode, max_paths=30000, wall=900))
-    for d, m in [(('abs', X), ('geq', P, ('const', 1.0))), (('geq', X, Y), ('not', P)), (('sub', X, Y), ('once', P))]:
+    ov = [(('abs', X), ('geq', P, ('const', 1.0))), (('geq', X, Y), ('not', P)), (('sub', X, Y), ('once', P))]
+    # every binary dense-time online operation directly over the caller's two batches, and over named one-to-one sub-specs
+    ov += [((k, X, Y), ('not', P)) for k in ('and', 'or', 'implies', 'iff', 'xor', 'add', 'mul', 'leq', 'lt', 'gt', 'eq', 'neq', 'since')]
+    ov += [(('abs', X), (k, P, Y)) for k in ('and', 'or', 'sub', 'since', 'geq')]
+    ov += [(('once_t', X, 0, 1), ('not', P)), (('historically', X), ('and', P, X))] + ([] if quick else [(('since_t', X, Y, 0, 1), ('not', P))])
+    for d, m in ov:
         two = len(variables(inline(m, {'p': d}))) > 1
         out.append(ob('C12', 'ct', 'ct/online-overlap/p=%s/out=%s' % (text(d), text(m)), defs=[['p', d]], main=m, ns=[3, 3] if two else [3], mode='online',
                       overlap=True, max_paths=30000, wall=900))
